@@ -433,6 +433,8 @@ WITNESSES = [
     "packet A { @tag(99999999999999999999) zchar[99999999999999999999] f, char[007] g, }",
     "packet A { STRING x @lengthOf(y), CHAR z @calculatedFrom(\"q\"), }",
     "root packet A { String len @lengthOf(y), u8 y, }",
+    "MetaData M { u32 len, u8 crc, } root packet A { u16 len @lengthOf(x), u8 x, u32 crc @calculatedFrom(\"CRC32\"), }",
+    "MetaData M { u32 len, u8 crc, } root packet A { len @lengthOf(x), u8 x, crc @calculatedFrom(\"CRC32\"), }",
     "MetaData M { u8 y, Nowhere y, y z, z y, }",
     "MetaData M { Nowhere a, a b, } packet P { a, b, }",
     "MetaData M { zchar[3] Z, } packet P { Z, @rightPad(' ') Z y, }",
